@@ -346,8 +346,12 @@ func c15Product(w *c15World, entry, feature string, v int) string {
 		}
 		return c15Kind(err)
 	}
+	router := w.mux
+	if strings.HasSuffix(entry, "_legacy") {
+		router, entry = w.legacy, strings.TrimSuffix(entry, "_legacy")
+	}
 	route := func(req *http.Request) (*routers.Route, map[string]string) {
-		r, pp, err := w.mux.FindRoute(req)
+		r, pp, err := router.FindRoute(req)
 		if err != nil {
 			panic("harness: c15 no route for " + req.Method + " " + req.URL.String())
 		}
@@ -515,6 +519,13 @@ func c15Call(w *c15World, o c15Op, v int, idx int, g int) string {
 			return "err"
 		}
 		return fmt.Sprintf("%s %s id=%s tenant=%s ver=%s", route.Method, route.Path, pp["id"], pp["tenant"], pp["ver"])
+	case "doc_marshal":
+		// the document served as JSON while it is used for validation
+		b, err := w.doc.MarshalJSON()
+		if err != nil {
+			return "err"
+		}
+		return fmt.Sprintf("json valid=%v", json.Valid(b))
 	case "load_cached":
 		// a Loader of its own with the default reader: the external file comes through the process-wide URI cache
 		l := openapi3.NewLoader()
